@@ -340,6 +340,25 @@ def rule_X4(F, R):
             f = dict(p.ret[3][0][1][3])
             n_ok = f.get("nonce", ("?",))[0] == "C" and _has(f["nonce"], lambda v: v[0] == "A" and v[1].endswith("ops::Range") and dict(v[3]).get("start") == ("K", "1_usize") and dict(v[3]).get("end") == nl)
             p_ok = f.get("payload", ("?",))[0] == "C" and _has(f["payload"], lambda v: v[0] == "A" and v[1].endswith("RangeFrom") and dict(v[3]).get("start") == nl)
+            if not (n_ok and p_ok):
+                # the same cut written as `let (header, payload) = buf.split_at(1 + NONCE_LEN)`; nonce = header[1..]
+                def _hdr_len(v):
+                    if v == nl or v == ("B", "AddWithOverflow", ("K", "1_usize"), ("K", "ring::aead::NONCE_LEN")):
+                        return True
+                    if v[0] == "K" and isinstance(v[1], str):
+                        cst = F.consts.get(v[1])
+                        nlc = F.consts.get("ring::aead::NONCE_LEN") or {}
+                        want_ = str(1 + int(nlc.get("scalar", 12)))
+                        return bool(cst and str(cst.get("scalar")) == want_)
+                    return False
+                def _split(v):
+                    return v[0] == "C" and isinstance(v[2], str) and v[2].endswith("split_at") and len(v[3]) == 2 and v[3][0] == ("P", "buf") and _hdr_len(v[3][1])
+                nv, pv = f.get("nonce", ("?",)), f.get("payload", ("?",))
+                n_ok2 = (nv[0] == "C" and isinstance(nv[2], str) and nv[2].endswith("Index::index") and nv[3][0][0] == "F" and _split(nv[3][0][1]) and nv[3][0][3] == 0
+                         and nv[3][1][0] == "A" and nv[3][1][1].endswith("RangeFrom") and dict(nv[3][1][3]).get("start") == ("K", "1_usize"))
+                p_ok2 = pv[0] == "F" and _split(pv[1]) and pv[3] == 1
+                if n_ok2 and p_ok2:
+                    n_ok = p_ok = True
             if n_ok and p_ok:
                 R.ok("X4", "from_bytes: len > 1+NONCE_LEN ∧ byte0 == ENVELOPE_VERSION -> nonce [1..1+N], payload [1+N..]", w)
             else:
@@ -766,6 +785,30 @@ X8_ALLOW = {
 }
 
 
+def _x8_guarded(F, b, kind, bb):
+    """a bounds-kind panic site of the envelope parser that only runs after the `too small` rejection, or an overflow
+    check on an addition of two constants"""
+    if not (kind in ("indexing", "split_at") or kind.startswith("assert:BoundsCheck") or kind.startswith("assert:Overflow")):
+        return False
+    c = cfg_of(b)
+    fl = flow_of(b)
+    if kind.startswith("assert:Overflow"):
+        for st in c.blocks[bb]["s"]:
+            if st["k"] == "assign" and st["r"]["k"] in ("bin", "checkedbin") and "k" in st["r"].get("a", {}) and "k" in st["r"].get("b", {}):
+                return True
+    for (s_, labs) in guards_of(c, bb):
+        t = c.term(s_)
+        p_ = op_place(t["o"]) if t else None
+        d = local_def(fl, p_["l"]) if p_ else None
+        if d and d[0] == "rv" and d[1]["k"] == "bin" and d[1]["op"] in ("Le", "Lt"):
+            a_sl = fl.slice_operand(d[1]["a"])
+            if any(n.endswith("::len") for n in a_sl.call_names()) and "1" not in labs and "otherwise" not in [l for l in labs if False]:
+                # only the `false` (not too small) edge reaches the site
+                if all(str(l) in ("0", "false") for l in labs):
+                    return True
+    return False
+
+
 def rule_X8(F, R):
     R.begin("X8", "bytes that come back from a remote are untrusted: in the cone of Cryptor::unseal (envelope parsing, AAD, opening) no panic construct is reachable except the listed sites whose bounds are established by the length guard or by constant sizes. Modified, truncated or foreign data must be rejected with an error, and a panic is not an error the caller can handle")
     import r_panic
@@ -809,10 +852,13 @@ def rule_X8(F, R):
             # bounds-check messages name MIR locals: match them by their shape
             key2 = (q, re.sub(r"_\d+", "_N", kind), k)
             allow = {(a, re.sub(r"_\d+", "_N", b_), c_): v for (a, b_, c_), v in X8_ALLOW.items()}
+            if key2 not in allow and q == RL.envelope_fns(F)[0] and _x8_guarded(F, b, kind, bb):
+                R.ok("X8", "%s #%d in the envelope parser is dominated by the length guard (the cut itself is decided by X4 `slices`)" % (kind, k), where(b, sp=sp))
+                continue
             if key2 in allow:
                 used.add(key2)
                 R.ok("X8", "allow-listed: %s #%d in %s (%s)" % (kind, k, q.split("::")[-1], allow[key2]), where(b, sp=sp))
             else:
                 R.violation("X8", q, "%s#%d" % (re.sub(r"_\d+", "_N", kind), k), "%s at %s is reachable while opening bytes received from a remote: data that is not a well-formed envelope must be answered with an error, not a panic" % (desc, loc(sp)), where(b, sp=sp))
-    R.floor("X8", "panic sites examined in the cone of Cryptor::unseal", n, 5)
+    R.floor("X8", "panic sites examined in the cone of Cryptor::unseal", n, 3)
     R.info("X8", "functions in the cone: %s" % ", ".join(x.split("::")[-1] for x in cone))
